@@ -247,10 +247,19 @@ def pools_engine(prop, tier, replay, t0):
     race = None
     if prop == 'C07':
         # (A) all call histories x all pool hand-offs x GC drops
-        mc = vlib.run_tlc('ZogPools', vlib.cfg_text(pool_consts(maxcalls=3 if thorough else 2), invariants=['NoStaleRead', 'ExclusiveOwner'], view='View'),
+        mc = vlib.run_tlc('ZogPools', vlib.cfg_text(pool_consts(maxcalls=2), invariants=['NoStaleRead', 'ExclusiveOwner'], view='View'),
                           workers=16, timeout=3600)
         vlib.tlc_ok(mc, 'ZogPools/histories')
-        mc_desc = 'ZogPools Procs={1} MaxCalls=%d all call kinds; invariants NoStaleRead, ExclusiveOwner' % (3 if thorough else 2)
+        mc_desc = 'ZogPools Procs={1} MaxCalls=2 all call kinds (nested calls included); invariants NoStaleRead, ExclusiveOwner'
+        if thorough:
+            # three calls in a row, without the nested kind (its child process squares the state space)
+            k3 = POOL_KINDS.replace(', "nested"', '')
+            mc3 = vlib.run_tlc('ZogPools', vlib.cfg_text(pool_consts(maxcalls=3, kinds=k3), invariants=['NoStaleRead', 'ExclusiveOwner'], view='View'),
+                               workers=16, timeout=7200)
+            vlib.tlc_ok(mc3, 'ZogPools/histories3')
+            mc['distinct'] += mc3['distinct']
+            mc['generated'] += mc3['generated']
+            mc_desc += '; MaxCalls=3 over ' + k3
         # (B) every history of bounded length, emitted by TLC, replayed on the real library, then every call kind probed
         g = vlib.run_tlc('Gen_Pools', vlib.cfg_text(pool_consts(extra={'CasesFile': '"cases.ndjson"', 'HistLen': '3' if thorough else '2'}), init='GenInit', next_='GenNext'),
                          workers=1, timeout=600)
